@@ -298,6 +298,12 @@ class Walk:
                 self.events.append(("synthetic", None, tuple(self.stack), ln))
         elif SUBEXPR in names:
             self.subexpr(args[0], ln)
+        elif any(n.startswith("compiler::Compiler::") and n != "compiler::Compiler::encode_if_then" for n in names):
+            # any other Compiler method may emit instructions / raise located errors on behalf of the card being compiled
+            self.events.append(("emit", [n for n in names if n.startswith("compiler::Compiler::")][0], tuple(self.stack), ln))
+        if "compiler::Compiler::encode_if_then" in names:
+            # encode_if_then itself emits the conditional jump before it runs the callback
+            self.events.append(("emit", "compiler::Compiler::encode_if_then", tuple(self.stack), ln))
         # closures run with the caller's bookkeeping state (encode_if_then calls `then(self)` once)
         for c in closure_args:
             if "compiler::Compiler::encode_if_then" in names:
